@@ -28,7 +28,7 @@ Table == LET seq == TLCEval(SetToSeq(Scenarios)) IN
             [base |-> s.base, mut |-> s.mut, route |-> s.route, content |-> ContentOf(s),
              effective |-> Effective(Bases[s.base], s.mut), default |-> (s.mut = None /\ s.route = R0(Bases[s.base]))]])
 
-Factors == {"cont", "lit", "br", "via", "perm", "alias", "dflt", "sub"}
+Factors == {"cont", "lit", "br", "via", "perm", "alias", "dflt", "sub", "npm"}
 RouteDiff(r1, r2) == {f \in Factors : r1[f] # r2[f]}
 HiddenDiff(h1, h2) == {f \in {"num", "index", "branch"} : h1[f] # h2[f]}
 
@@ -66,6 +66,8 @@ Judge(obs, variant) ==
        noid == {i \in 1..n : ~obs[i].ok}
        readbad == {i \in has : obs[i].after # obs[i].id}
        procbad == {i \in has : \E k \in DOMAIN obs[i].others : obs[i].others[k] # obs[i].id}
+       \* an isotherm rebuilt from what the object hands out (to_dict / model.to_dict / data) is the same content
+       clonebad == {i \in has : \E k \in DOMAIN obs[i].clones : obs[i].clones[k] # obs[i].id}
        \* the descriptive model says an identifier exists iff ImplHasId
        driftNoId == {i \in 1..n : obs[i].ok # ImplHasIdOf(variant, ContentOf(obs[i].s), obs[i].s.route)}
    IN [objects |-> n, pairs |-> npairs, bad_pairs |-> Cardinality(bad),
@@ -73,6 +75,7 @@ Judge(obs, variant) ==
        no_identifier |-> SetToSeq({[s |-> obs[i].s, error |-> obs[i].id, hidden |-> H[i]] : i \in noid}),
        changed_by_reads |-> SetToSeq({[s |-> obs[i].s, reads |-> obs[i].reads] : i \in readbad}),
        changed_by_process |-> SetToSeq({[s |-> obs[i].s] : i \in procbad}),
+       clone_differs |-> SetToSeq({[s |-> obs[i].s, reads |-> obs[i].reads, id |-> obs[i].id, clones |-> obs[i].clones] : i \in clonebad}),
        reads_checked |-> Cardinality(has), process_checked |-> Cardinality({i \in has : Len(obs[i].others) > 0}),
        content_classes |-> Cardinality({C[i] : i \in 1..n}),
        drift_no_identifier |-> Cardinality(driftNoId)]
